@@ -1067,4 +1067,90 @@ theorem fork_styles_canon {cat : Catalog} (style : Block → BlockStyle) (r : Re
       rw [tip_cons_lt (Nat.le_of_lt h1), tip_cons_lt (by omega)]
   · rw [htF]; exact hge
 
+/-! ### the highly redundant presentation -/
+
+theorem adm_reconfs {c : Chain} {cur : Nat} {rest : List Op} :
+    ∀ (l : List Block), (∀ p ∈ l, p.height ≤ cur ∧ ∀ t ∈ p.txs, inChain c p.height t) → Adm c cur rest →
+      Adm c cur (l.map (fun p => Op.txsConfirmed p.height p.txs) ++ rest) := by
+  intro l
+  induction l with
+  | nil => intro _ hr; simpa using hr
+  | cons p r ih =>
+    intro hl hr
+    simp only [List.map_cons, List.cons_append]
+    have hp := hl p (by simp)
+    refine Adm.conf _ _ _ _ hp.2 ?_
+    rw [Nat.max_eq_left hp.1]
+    exact ih (fun x hx => hl x (by simp [hx])) hr
+
+theorem topHeight_reconfs {cur : Nat} : ∀ (l : List Block), (∀ p ∈ l, p.height ≤ cur) →
+    topHeight cur (l.map (fun p => Op.txsConfirmed p.height p.txs)) = cur := by
+  intro l
+  induction l with
+  | nil => intro _; rfl
+  | cons p r ih =>
+    intro hl
+    simp only [List.map_cons, topHeight]
+    rw [Nat.max_eq_left (hl p (by simp))]
+    exact ih (fun x hx => hl x (by simp [hx]))
+
+theorem presentsRedundant_adm {c : Chain} (style : Block → BlockStyle) :
+    ∀ (c' done : Chain) (cur : Nat), Sorted cur c' →
+      (∀ p ∈ done, p.height ≤ cur ∧ ∀ t ∈ p.txs, inChain c p.height t) →
+      (∀ b ∈ c', ∀ t ∈ b.txs, inChain c b.height t) → Adm c cur (presentsRedundant style done c') := by
+  intro c'
+  induction c' with
+  | nil => intro done cur _ _ _; exact Adm.nil _
+  | cons b r ih =>
+    intro done cur hs hdone hin
+    simp only [presentsRedundant, List.append_assoc]
+    apply adm_reconfs
+    · intro p hp
+      exact hdone p (List.mem_filter.1 hp).1
+    · apply presentBlock_adm _ _ (hin b (by simp)) (Nat.le_of_lt hs.1)
+      apply ih _ _ hs.2
+      · intro p hp
+        rcases List.mem_append.1 hp with h1 | h1
+        · exact ⟨Nat.le_trans (hdone p h1).1 (Nat.le_of_lt hs.1), (hdone p h1).2⟩
+        · simp only [List.mem_singleton] at h1
+          subst h1
+          exact ⟨Nat.le_refl _, hin p (by simp)⟩
+      · exact fun x hx => hin x (by simp [hx])
+
+theorem mem_delivered_presentsRedundant (style : Block → BlockStyle) (c done : Chain) {h t : Nat}
+    (hin : inChain c h t) : t ∈ delivered (presentsRedundant style done c) := by
+  obtain ⟨b, hb, _, ht⟩ := hin
+  induction c generalizing done with
+  | nil => cases hb
+  | cons x r ih =>
+    simp only [presentsRedundant, delivered_append]
+    rcases List.mem_cons.1 hb with rfl | h1
+    · exact List.mem_append_left _ (List.mem_append_right _ (mem_delivered_presentBlock _ _ ht))
+    · exact List.mem_append_right _ (ih _ h1)
+
+theorem topHeight_presentsRedundant (style : Block → BlockStyle) :
+    ∀ (c done : Chain) (cur : Nat), Sorted cur c → (∀ p ∈ done, p.height ≤ cur) →
+      topHeight cur (presentsRedundant style done c) = tip cur c := by
+  intro c
+  induction c with
+  | nil => intro done cur _ _; rfl
+  | cons b r ih =>
+    intro done cur hs hdone
+    simp only [presentsRedundant]
+    rw [topHeight_append, topHeight_append, topHeight_reconfs _ (fun p hp => hdone p (List.mem_filter.1 hp).1),
+      topHeight_presentBlock]
+    have hm : max cur b.height = b.height := Nat.max_eq_right (Nat.le_of_lt hs.1)
+    rw [hm, ih _ _ hs.2, tip_cons_lt (Nat.le_of_lt hs.1)]
+    intro p hp
+    rcases List.mem_append.1 hp with h1 | h1
+    · exact Nat.le_trans (hdone p h1) (Nat.le_of_lt hs.1)
+    · simp only [List.mem_singleton] at h1; subst h1; exact Nat.le_refl _
+
+/-- re-announcing every earlier non-empty block before each new block is admissible -/
+theorem presentsRedundant_Presents (style : Block → BlockStyle) {b0 : Nat} {c : Chain} (hs : Sorted b0 c) :
+    Presents b0 c (presentsRedundant style [] c) where
+  adm := presentsRedundant_adm style c [] b0 hs (by intro p hp; cases hp) (fun b hb _ ht => ⟨b, hb, rfl, ht⟩)
+  complete := fun _ _ hin => mem_delivered_presentsRedundant style c [] hin
+  reaches := topHeight_presentsRedundant style c [] b0 hs (by intro p hp; cases hp)
+
 end Ldk.ChainView
